@@ -32,6 +32,8 @@ expect() {
     C04e-*) echo C17 ;;
     C17e-*) echo "C17 C15" ;;
     C05e-*) echo "C05 C16" ;;
+    C04i*) echo "C04 C09" ;;
+    C17i*) echo "C17 C15" ;;
     C19-retry-budget-off-by-one) echo "" ;; # deliberately not flagged (DESIGN.md §11)
     *) echo "${1:0:3}" ;;
   esac
